@@ -37,7 +37,7 @@ func init() {
 		Rule: "one run = histories of json calls (Marshal, Encoder.Encode, Unmarshal, Parse with a ParseFlags subset, Decoder.Decode×k over a simulated reader, Tokenizer pass, scribble over an input, recheck) for 1..3 simulated goroutines plus pool policy and schedule, from the tape; non-trivial = at least one fault fired (an input was scribbled while results from it were live, a pooled buffer was reused after poison, the Decoder refilled its buffer between two results, or a context switch happened); distinct = distinct hash of (operations, documents, flags, schedule trace)",
 		FaultKinds: []string{"scribble-input-with-live-results", "tokenizer-reset-and-reused", "destination-decoded-into-again", "pooled-buffer-poisoned-and-reused", "decoder-refill-between-results", "decoder-reader-chunked", "context-switch", "zero-copy-flags", "loose-capacity-input",
 			"pool-policy:lifo", "pool-policy:fifo", "pool-policy:random", "pool-policy:never-reuse", "pool-policy:drop-on-put"},
-		ProbeNames: []string{"ops", "inputs-checked-unchanged", "result-leaves-tracked", "leaves-aliasing-input(allowed)", "leaves-rechecked-after-scribble", "marshal-results-rechecked", "decoder-values", "decoder-zero-copy-values-checked-until-next-decode", "encoder-inputs-checked-unchanged", "tokenizer-strings", "writer-buffers-checked-stable-during-write", "decoder-leaves-in-read-buffer(allowed)", "tokenizer-strings-unescaped(own memory, tracked)", "utility-calls", "decoded-values-snapshotted"},
+		ProbeNames: []string{"ops", "inputs-checked-unchanged", "result-leaves-tracked", "leaves-aliasing-input(allowed)", "leaves-rechecked-after-scribble", "marshal-results-rechecked", "decoder-values", "decoder-zero-copy-values-checked-until-next-decode", "encoder-inputs-checked-unchanged", "tokenizer-strings", "writer-buffers-checked-stable-during-write", "decoder-leaves-in-read-buffer(allowed)", "tokenizer-strings-unescaped(own memory, tracked)", "utility-calls", "decoded-values-snapshotted", "raw-message-windows-checked", "zero-copy-results-of-a-finished-decoder-tracked"},
 		Real:       []string{"json.Marshal/Encoder/Unmarshal/Parse/Decoder/Tokenizer compiled from /repo's working tree with sync redirected to the shim"},
 		Model:      []string{"sync.Pool (simulated; poison on put, LIFO reuse by default)", "scheduler", "io.Reader (simio.Reader)", "caller buffers (simio.GuardedBuf: canaries + shadow copy)"},
 		Assumptions: []string{
@@ -112,6 +112,8 @@ type c10Op struct {
 	useNum  bool
 	// Tokenizer: Reset and reuse the task's previous Tokenizer
 	tokReset bool
+	// encode ops: the guarded buffer a RawMessage argument is a window of
+	rawGuard *simio.GuardedBuf
 	// utility ops
 	sub    int
 	prefix []byte
@@ -491,6 +493,22 @@ func c10GenTask(r *core.Run, t *tape.Tape) []*c10Op {
 					op.val, op.valCopy = reflect.ValueOf(&C10OwnBytes{Doc: mk()}), reflect.ValueOf(&C10OwnBytes{Doc: mk()})
 				}
 				op.byValue = t.Bool()
+			} else if t.Chance(1, 6) {
+				// a RawMessage that is a window into a larger buffer of the caller's
+				// (several messages back to back): the bytes behind it are guarded
+				doc := c10Doc(t, reflect.TypeOf(map[string]string{}), false)
+				var cb bytes.Buffer
+				if stdjson.Compact(&cb, doc) == nil {
+					doc = cb.Bytes()
+				}
+				g := simio.NewGuarded(len(doc), 0, 0xEE)
+				copy(g.Body(), doc)
+				g.Snapshot()
+				rm, rmCopy := json.RawMessage(g.BodyLoose()), json.RawMessage(append([]byte(nil), doc...))
+				op.ty = reflect.TypeOf(rm)
+				op.val, op.valCopy = reflect.ValueOf(&rm), reflect.ValueOf(&rmCopy)
+				op.byValue = t.Bool()
+				op.rawGuard = g
 			}
 			op.encOpts = t.Intn(8)
 		case c10Unmarshal, c10Parse, c10Tokenizer:
@@ -630,6 +648,13 @@ func (tr *c10TaskRes) encoderInputsIntact(ops []*c10Op, upto int, when string) {
 			if !reflect.DeepEqual(op.val.Interface(), op.valCopy.Interface()) {
 				tr.failf("encoder-input-modified", "%s: the value given to %s (op #%d, %s) is no longer what the caller put there: the library wrote to memory it was lent", when, c10OpNames[op.kind], k, clipStr(op.ty.String(), 60))
 				return
+			}
+			if op.rawGuard != nil {
+				tr.probes["raw-message-windows-checked"]++
+				if off, ok := op.rawGuard.Unchanged(); !ok {
+					tr.failf("encoder-input-buffer-modified", "%s: the buffer of which the RawMessage given to %s (op #%d) is a window changed at offset %d relative to the window (window length %d): the library wrote to memory it was lent, behind or in front of the slice", when, c10OpNames[op.kind], k, off, op.rawGuard.Hi-op.rawGuard.Lo)
+					return
+				}
 			}
 		}
 	}
@@ -878,7 +903,7 @@ func c10Exec(task int, ops []*c10Op, tr *c10TaskRes) {
 			if len(op.script) > 0 || op.tail < len(op.stream) {
 				tr.faults["decoder-reader-chunked"]++
 			}
-			var prev []leaf
+			var prev, allZero []leaf
 			lastBatches := 0
 			for k := 0; k < op.ndecode+1; k++ {
 				// zero-copy results must be stable until the next Decode on this decoder
@@ -895,6 +920,9 @@ func c10Exec(task int, ops []*c10Op, tr *c10TaskRes) {
 				}
 				tr.probes["decoder-values"]++
 				ls := tr.track(j, &c10Op{kind: c10Decoder, flags: op.flags}, x, fmt.Sprintf("Decode#%d", k), zero)
+				if zero && len(allZero) < 96 {
+					allZero = append(allZero, ls...)
+				}
 				// a result that points into a buffer the Decoder handed to Read shares
 				// memory with the Decoder's read buffer, which later Decode calls refill
 				for i := range ls {
@@ -925,6 +953,18 @@ func c10Exec(task int, ops []*c10Op, tr *c10TaskRes) {
 				lastBatches = len(rd.Batches)
 				simhook.Yield(simhook.KOp, -1)
 			}
+			// this Decoder is not used again.  What it handed out under zero-copy
+			// flags shares memory with this Decoder's buffer "and with nothing else":
+			// its own later Decodes were entitled to rewrite it, nobody else is.  From
+			// here on the bytes those results hold now must stay as they are.
+			if len(allZero) > 0 {
+				for i := range allZero {
+					allZero[i].snap = append(allZero[i].snap[:0], allZero[i].view...)
+				}
+				tr.leaves = append(tr.leaves, allZero...)
+				tr.probes["zero-copy-results-of-a-finished-decoder-tracked"]++
+			}
+			_ = prev
 		case c10Util:
 			in := op.buf.Body()
 			own := func(b []byte, what string) {
